@@ -159,6 +159,10 @@ class Executor:
 
     # ------------------------------------------------------------ obligations
     def oblige(self, oid, goal, kind="assert", node=None, note=""):
+        if getattr(self, "lazy_replay", 0) > 0:
+            # re-evaluation of a comprehension element at another (quantified) position: its obligations were posed once, for an
+            # arbitrary position of the sequence, when the comprehension itself was evaluated (_comp)
+            return
         self.ctx.oblige(oid, goal, kind, getattr(node, "lineno", 0), note)
         if kind in ("precondition", "index") and isinstance(goal, z3.BoolRef) and not z3.is_false(goal):
             # assert-then-assume: once a call's precondition / an index bound has been posed as an obligation, the rest of the
@@ -392,13 +396,19 @@ class Executor:
             # element k, evaluated lazily.  Inside, operations that would raise for a bad element (tuple.index of an
             # absent name ...) do not fork the path: they record their definedness condition (collected below)
             self.lazy_depth = getattr(self, "lazy_depth", 0) + 1
+            replay = k is not k0
+            if replay:
+                self.lazy_replay = getattr(self, "lazy_replay", 0) + 1
             try:
                 e2 = dict(env0)
                 self.bind(gen.target, seq.item(k), e2, node)
                 return elt_eval(e2)
             finally:
                 self.lazy_depth -= 1
+                if replay:
+                    self.lazy_replay -= 1
 
+        k0 = z3.Int(self.ctx.fresh("k0"))
         keep = None
         if gen.ifs:
             def keep(k):
@@ -408,7 +418,6 @@ class Executor:
                 return V.and_all(cs)
         # a comprehension is evaluated eagerly by Python: every (selected) element must be defined.  The element
         # expression is evaluated once for an arbitrary index; the conditions it records become one obligation.
-        k0 = z3.Int(self.ctx.fresh("k0"))
         self.lazy_pre = getattr(self, "lazy_pre", [])
         pre = []
         if self.decide(seq.n >= 1 if not isinstance(seq.n, int) else seq.n >= 1, "comprehension.nonempty"):
